@@ -170,7 +170,7 @@ void misc_string_ops(Enumerator &E) {
     // one string operand (+ optional second), variants listed per kind
     struct K { uint16_t kind; const char *name; unsigned nvar; };
     const K ks[] = {{S_SUBSTR, "substr", 8}, {S_TRIM, "trim", 3}, {S_CASE, "case", 2}, {S_TOKENIZE, "tokenize", 1}, {S_TO_BUF, "to_buf", 6},
-                    {S_TO_STD, "to_std", 12}, {S_OVERLOADS, "overloads", 10}, {S_CODEC, "codec", 4}, {S_FROM_NUM, "from_num", 11}, {S_LITERAL, "literal", 5}, {S_FILL, "fill", 1},
+                    {S_TO_STD, "to_std", 12}, {S_OVERLOADS, "overloads", 11}, {S_CODEC, "codec", 4}, {S_FROM_NUM, "from_num", 11}, {S_LITERAL, "literal", 5}, {S_FILL, "fill", 1},
                     {S_NEW_DEFAULT, "new_default", 1}, {S_CLEAR, "clear", 1}, {S_HASH, "hash", 1}, {S_READ, "read", 5}};
     for (const K &k : ks)
         for (unsigned var = 0; var < k.nvar; var++)
@@ -211,6 +211,21 @@ void misc_string_ops(Enumerator &E) {
                     size_t ts = b.target(o);
                     E.cell(nm("replace", "ov" + std::to_string(ov) + (match ? ",match" : ",pool"), std::string("obj=") + L(LC16[ti], 16) + ",to=" + L(LC16[ai], 16)), b, ts);
                 }
+            // searches and comparisons: they allocate nothing today; each is executed once (k = 0) so that an allocation that appears in one of them is enumerated
+            for (unsigned which = 0; which < 5; which++)
+                for (unsigned ov = 0; ov < 4; ov++)
+                    for (unsigned ci = 0; ci < 2; ci++) {
+                        Builder b; uint32_t s = b.str(LC16[ti]); uint32_t t2 = b.str(LC16[ai]);
+                        Op o; o.kind = S_FIND; o.a = s; o.b = t2; o.c = 1004; o.d = 0 | (ci << 2) | (which << 3) | (ov << 6);
+                        size_t ts = b.target(o);
+                        E.cell(nm("find", "which" + std::to_string(which) + ",ov" + std::to_string(ov) + (ci ? ",ci" : ""), std::string("hay=") + L(LC16[ti], 16) + ",needle=" + L(LC16[ai], 16)), b, ts);
+                    }
+            for (unsigned which = 0; which < 8; which++) {
+                Builder b; uint32_t s = b.str(LC16[ti]); uint32_t t2 = b.str(LC16[ai]);
+                Op o; o.kind = S_COMPARE; o.a = s; o.b = t2; o.c = 1003; o.d = which;
+                size_t ts = b.target(o);
+                E.cell(nm("compare", "which" + std::to_string(which), std::string("l=") + L(LC16[ti], 16) + ",r=" + L(LC16[ai], 16)), b, ts);
+            }
             for (unsigned ov = 0; ov < 3; ov++) {
                 Builder b; uint32_t s = b.str(LC16[ti] * 3); uint32_t t2 = b.str(LC16[ai]);
                 Op o; o.kind = S_SPLIT; o.a = s; o.b = ov == 2 ? t2 : 1; o.c = (ai & 1) ? 1004 : 2; o.d = ov | ((ov == 2 ? 0u : 1u) << 3);
